@@ -281,6 +281,9 @@ def r3(ctx):
                     problems.append("entry fields: written %r, read into %r" % (fe, fd))
                 if not b.extra.endswith(".pduData"):
                     problems.append("the table must be read until the frame is exhausted (loop condition %s)" % b.extra)
+                resets = [i for i in db.items if i.kind == "store" and i.target == a.extra and isinstance(i.expr, ast.List) and not i.expr.elts]
+                if not resets or db.items.index(resets[0]) > db.items.index(b):
+                    problems.append("decode does not reset %s to an empty list before appending (entries of an earlier frame or of the shared constructor default accumulate)" % a.extra)
                 apps = [i for i in subs_d[0].items if i.kind == "call" and ".append(" in i.extra]
                 if not apps or not apps[-1].extra.startswith(a.extra + ".append("):
                     problems.append("entries written from %s are appended to %s" % (a.extra, apps[-1].extra.split(".append")[0] if apps else None))
